@@ -5,6 +5,7 @@ import PoolModel.Sha256
   `tkt <hex>`  → outcome of `DeserializeTicket` on arbitrary bytes
   `str <hex>`  → outcome of `DecodeString` on an arbitrary string (hex of its bytes)
   `prep <msg>` → `ParseRPCBatch` outcome, then what the rpcServer and the SidecarAcceptor handlers do
+  `pcls <msg>` → outcome class of `ParseRPCBatch` only (messages of the concurrent scenarios)
   `sign <msg>` → `ParseRPCSign` outcome, the rpcServer handler without / with a pending batch, the
                  acceptor handler without a pending batch -/
 namespace Pool.C19
@@ -37,6 +38,10 @@ def drvStep (s : DrvSt) (args : List String) : DrvSt × String :=
     | some m =>
       (s, joinWith " " [(parseRPCBatch repoRpcCfg m).cls, fmtHandled (handlePrepare repoRpcCfg m),
                         fmtHandled (acceptorHandlePrepare repoRpcCfg m)])
+    | none => (s, "bad-op")
+  | ["pcls", m] =>
+    match (parseSx m).bind sxPrepare with
+    | some m => (s, (parseRPCBatch repoRpcCfg m).cls)
     | none => (s, "bad-op")
   | ["sign", m] =>
     match (parseSx m).bind sxSign with
